@@ -30,9 +30,14 @@ def run(ctx):
         if not meta:
             continue
         # same height: both derive from the same range iterator step
-        hm = {n[4] for n in walk(call_expr(b, meta[0])[3][1]) if n[0] == "call" and n[2].endswith("Iterator::next")}
-        hr = {n[4] for n in walk(e[3][1]) if n[0] == "call" and n[2].endswith("Iterator::next")}
-        ctx.check(bool(hm) and hm == hr, "C35.remove.same-height", b.path, "metadata and removal use the same height of the batch", site=b.loc(blk), key="C35.remove.same-height")
+        def height_id(x):
+            its = {n[4] for n in walk(x) if n[0] == "call" and n[2].endswith("Iterator::next")}
+            # the loop variable of the batch iteration, or (when the loop body lives in a helper) the
+            # helper's own height parameter
+            return ("iter", frozenset(its)) if its else ("leaves", frozenset(ctx.leaves(x)))
+
+        hm, hr = height_id(call_expr(b, meta[0])[3][1]), height_id(e[3][1])
+        ctx.check(bool(hm[1]) and hm == hr, "C35.remove.same-height", b.path, "metadata and removal use the same height of the batch", site=b.loc(blk), key="C35.remove.same-height")
         require_guard(ctx, b, Has("call:lumina_node::store::Store::get_sampling_metadata", name="?get_sampling_metadata(height)"), "C35.remove.metadata-first", targets=[blk])
         # the CID loop: iterator derived from the metadata, Blockstore::remove honoured
         cid_loops = loop_heads(ctx, b, ["call:lumina_node::store::Store::get_sampling_metadata"])
